@@ -31,17 +31,35 @@ echo "== demo WITH patch" >> $log
 ( eval "$demo_cmd" ) > $dest/demo_with.log 2>&1; r1=$?
 echo "exit=$r1" >> $log
 rm -f $demo_path
-# existing tests of touched packages
+# existing tests of touched packages: a failure counts only if the test is in the baseline's stable_pass list
 pkgs=$(git diff --name-only | grep '\.go$' | xargs -n1 dirname | sort -u)
-rt=0
+: > $dest/tests.json
 for p in $pkgs; do
-  case $p in sdk/*) (cd sdk && go test -count=1 -vet=off ./${p#sdk/}/ ) >> $dest/tests.log 2>&1 || rt=1 ;;
-  *) go test -count=1 -vet=off -timeout 40m ./$p/ >> $dest/tests.log 2>&1 || rt=1 ;; esac
+  case $p in sdk/*) (cd sdk && go test -json -count=1 -vet=off ./${p#sdk/}/ ) >> $dest/tests.json 2>/dev/null ;;
+  *) go test -json -count=1 -vet=off -timeout 40m ./$p/ >> $dest/tests.json 2>/dev/null ;; esac
 done
-echo "== existing tests of touched packages ($pkgs): exit=$rt" >> $log
-tail -5 $dest/tests.log >> $log
+python3 - "$dest" <<'PY' >> $log
+import json,sys
+dest=sys.argv[1]
+stable=set(json.load(open('/root/.vp/BASELINE.json'))['stable_pass'])
+failed=set(); passed=0; buildfail=[]
+for line in open(dest+'/tests.json',errors='replace'):
+    try: e=json.loads(line)
+    except Exception: continue
+    if e.get('Action')=='fail' and e.get('Test'):
+        failed.add(e['Package']+'::'+e['Test'])
+    if e.get('Action')=='pass' and e.get('Test'): passed+=1
+    if e.get('Action')=='fail' and not e.get('Test') and e.get('Elapsed',1)==0: buildfail.append(e.get('Package'))
+reg=sorted(f for f in failed if f in stable)
+print("== existing tests of touched packages: passed=%d failed=%d of which in baseline stable_pass=%d"%(passed,len(failed),len(reg)))
+for f in sorted(failed): print("   failed%s: %s"%(" (BASELINE-STABLE => regression)" if f in stable else " (not in baseline stable_pass: environmental)",f))
+open(dest+'/tests_summary.json','w').write(json.dumps({"passed":passed,"failed":sorted(failed),"regressions":reg}))
+sys.exit(1 if reg or passed==0 else 0)
+PY
+rt=$?
+rm -f $dest/tests.json
 git checkout -q -- . ; git clean -qfd
 if [ $r0 -eq 0 ] && [ $r1 -ne 0 ] && [ $rb -eq 0 ] && [ $rt -eq 0 ]; then echo "CONFIRMED" >> $log; else echo "NOT CONFIRMED (without=$r0 with=$r1 build=$rb tests=$rt)" >> $log; fi
 # keep logs small
-for f in demo_without.log demo_with.log tests.log; do [ -f $dest/$f ] && tail -c 20000 $dest/$f > $dest/$f.t && mv $dest/$f.t $dest/$f; done
+for f in demo_without.log demo_with.log; do [ -f $dest/$f ] && tail -c 20000 $dest/$f > $dest/$f.t && mv $dest/$f.t $dest/$f; done
 tail -3 $log
